@@ -5,6 +5,8 @@ var (
 	stepsGet       = func() int64 { return 0 }
 	stepsSetBudget = func(int64) {}
 	setHook        = func(func()) {}
+	syncDepthGet   = func() int { return 0 }
+	rawHookSet     = func(func()) {} // statement hook without the scheduler's blocking hook
 )
 
 // CoverageGet returns the statement-hit vector of the instrumented build (nil in the plain build).
